@@ -37,6 +37,7 @@ type Engine struct {
 	contractFiles []string
 	macroSpecs bool
 	fieldIDs map[string]int
+	impureBusy map[*ssa.Function]bool
 }
 
 type WriteSet struct {
@@ -58,7 +59,7 @@ func LoadEngine(repo string, patterns []string, overlay map[string][]byte) (*Eng
 	e := &Engine{repo: repo, pkgs: pkgs, spkgs: map[string]*ssa.Package{}, tpkgs: map[string]*types.Package{}, cs: NewContracts(),
 		strIDs: map[string]string{}, tagIDs: map[string]int{}, callOrd: map[string]map[ssa.Instruction]int{}, wsMemo: map[*ssa.Function]*WriteSet{},
 		wsBusy: map[*ssa.Function]bool{}, loopMemo: map[*ssa.Function]map[*ssa.BasicBlock]int{}, fcFunc: map[*FuncContract]*ssa.Function{},
-		funcFC: map[*ssa.Function]*FuncContract{}, methFC: map[string]*FuncContract{}, fieldIDs: map[string]int{}}
+		funcFC: map[*ssa.Function]*FuncContract{}, methFC: map[string]*FuncContract{}, fieldIDs: map[string]int{}, impureBusy: map[*ssa.Function]bool{}}
 	packages.Visit(pkgs, nil, func(p *packages.Package) {
 		for _, er := range p.Errors {
 			if strings.HasPrefix(p.PkgPath, modulePath) {
@@ -295,7 +296,7 @@ func (e *Engine) inlinable(fn *ssa.Function) bool {
 	for _, b := range fn.Blocks {
 		n += len(b.Instrs)
 	}
-	return n <= 150 && len(fn.Blocks) <= 24
+	return n <= 400 && len(fn.Blocks) <= 48
 }
 
 // ---------- static write sets ----------
@@ -388,6 +389,15 @@ func (e *Engine) callWrites(ws *WriteSet, cc *ssa.CallCommon, merge func(*WriteS
 		if cc.Method.Pkg() != nil {
 			pp = cc.Method.Pkg().Path()
 		}
+		if pp == dbPkg {
+			// key-value store model: only the modelled database arrays change
+			for k, s := range map[string]string{"MD|dbm": "Bool", "MV|dbm|val": "Int", "MV|dbm|cnt": "Int", "F|dbm|$writes": "Int",
+				"MV|dbmbatch|op": "Int", "MV|dbmbatch|val": "Int", "F|dbmbatch|db": "Int"} {
+				ws.Keys[k] = true
+				ws.Sorts[k] = s
+			}
+			return
+		}
 		if purePkgs[pp] || pp == "" || e.pureIface(cc.Method, cc.Value.Type()) {
 			return
 		}
@@ -426,6 +436,13 @@ func (e *Engine) callWrites(ws *WriteSet, cc *ssa.CallCommon, merge func(*WriteS
 		return
 	}
 	name := callee.String()
+	if strings.HasPrefix(name, "(*sync.Map).") {
+		for k, s := range map[string]string{"MD|sync.Map": "Bool", "MV|sync.Map|$tag": "Int", "MV|sync.Map|$val": "Int"} {
+			ws.Keys[k] = true
+			ws.Sorts[k] = s
+		}
+		return
+	}
 	if strings.HasPrefix(name, "(*sync.") || strings.HasPrefix(name, "sync/atomic.") || strings.Contains(name, "libs/sync.") || strings.Contains(name, "go-deadlock") {
 		if strings.HasPrefix(name, "sync/atomic.Store") || strings.HasPrefix(name, "sync/atomic.Add") {
 			if pt, ok := cc.Args[0].Type().Underlying().(*types.Pointer); ok {
@@ -478,6 +495,9 @@ func (e *Engine) addReachable(ws *WriteSet, t types.Type, addType func(string, t
 }
 
 func (e *Engine) contractWrites(ws *WriteSet, fc *FuncContract) {
+	for _, gs := range fc.Sets {
+		ws.Ghosts[gs.Ghost] = true
+	}
 	for _, a := range fc.Assigns {
 		// all(T.f) or ghost name or location expression: approximate by key
 		if ce, ok := a.Expr.(*ast.CallExpr); ok && identName(ce.Fun) == "all" {
@@ -622,6 +642,9 @@ const preamble = `(set-logic ALL)
 (declare-fun bconcat (Int Int) Int)
 (declare-fun bcmp (Int Int) Int)
 (declare-fun bisnil (Int) Bool)
+(declare-fun bupd (Int Int Int) Int)
+(declare-fun bzero (Int) Int)
+(assert (forall ((n Int)) (! (=> (>= n 0) (= (blen (bzero n)) n)) :pattern ((bzero n)))))
 (declare-fun bvand_u (Int Int) Int)
 (declare-fun bvor_u (Int Int) Int)
 (declare-fun bvxor_u (Int Int) Int)
@@ -798,6 +821,16 @@ func (e *Engine) VerifyFunction(fc *FuncContract) *FuncResult {
 		x.axiomTerms = append(x.axiomTerms, x.evalBool(env, ax))
 		x.axiomNames = append(x.axiomNames, ax.Label+": "+ax.Src)
 	}
+	// proved postconditions of `pure` functions are available as quantified facts about their function symbols
+	for _, pfc := range e.sortedContracts() {
+		if !pfc.Pure || pfc.Extern || pfc == fc || len(pfc.Ensures) == 0 {
+			continue
+		}
+		if ax := x.pureAxiom(pfc); ax != "" {
+			x.axiomTerms = append(x.axiomTerms, ax)
+			x.axiomNames = append(x.axiomNames, "postconditions of pure function "+pkgShort(pfc.PkgPath)+"."+pfc.Key+" (proved as its own obligations)")
+		}
+	}
 	for _, ln := range fc.Uses {
 		found := false
 		for _, lem := range e.cs.Lemmas {
@@ -822,6 +855,7 @@ func (e *Engine) VerifyFunction(fc *FuncContract) *FuncResult {
 	cov := &Obligation{Name: key + "#cover:requires", Func: key, Kind: "cover", Src: "preconditions and axioms are satisfiable", Goal: "false"}
 	cov.Script = x.script(st, "false")
 	x.obls = append(x.obls, cov)
+	x.entryCover = cov
 	if fc.Trusted {
 		res.Obls = x.obls
 		res.Assumed = append(res.Assumed, "contract of "+key+" is trusted (body not verified)")
@@ -864,6 +898,14 @@ func (e *Engine) VerifyFunction(fc *FuncContract) *FuncResult {
 		}
 		x.pathDone()
 	})
+	// consistency probe of the background theory actually used (preamble, declarations, spec function definitions,
+	// axioms, lemmas) without any path facts: must not be unsat
+	{
+		empty := &State{}
+		ax := &Obligation{Name: key + "#cover:axioms", Func: key, Kind: "cover", Src: "background axioms and definitions are consistent", Goal: "false"}
+		ax.Script = x.script(empty, "false")
+		x.obls = append(x.obls, ax)
+	}
 	// vacuity probes on returning paths: up to 6, spread evenly over the explored paths
 	if n := len(x.retCoverCands); n > 0 {
 		k := 6
@@ -896,11 +938,24 @@ func pkgShort(path string) string {
 
 // frameObligations: at a return, every heap location that differs from the entry state must be either
 // freshly allocated on this path or named by the assigns clause.
-func (x *Exec) frameObligations(st *State) {
-	type allowed struct{ base, idx string }
-	allow := map[string][]allowed{}
-	ghostOK := map[string]bool{}
-	allKeys := map[string]bool{}
+type frameAllowed struct{ base, idx string }
+
+type frameSpec struct {
+	allow   map[string][]frameAllowed
+	ghostOK map[string]bool
+	allKeys map[string]bool
+}
+
+// frameSpecOf evaluates the assigns clause once (its terms mention entry-state symbols only).
+func (x *Exec) frameSpecOf(st *State) *frameSpec {
+	if x.fspec != nil {
+		return x.fspec
+	}
+	fs := &frameSpec{allow: map[string][]frameAllowed{}, ghostOK: map[string]bool{}, allKeys: map[string]bool{}}
+	allow, ghostOK, allKeys := fs.allow, fs.ghostOK, fs.allKeys
+	for _, gs := range x.fc.Sets {
+		ghostOK[gs.Ghost] = true
+	}
 	pkg := x.fn.Pkg.Pkg
 	for _, a := range x.fc.Assigns {
 		if ce, ok := a.Expr.(*ast.CallExpr); ok && identName(ce.Fun) == "all" {
@@ -934,12 +989,61 @@ func (x *Exec) frameObligations(st *State) {
 			if lv.P.Idx != "" {
 				kind = "E|"
 			}
+			if lv.P.Ghost != "" {
+				k := "F|" + typeKey(lv.P.Root) + "|" + lv.P.Ghost
+				allow[k] = append(allow[k], frameAllowed{lv.P.Base, ""})
+				return
+			}
 			for _, l := range leaves(t) {
 				k := kind + typeKey(lv.P.Root) + "|" + joinPath(prefix, l.Path)
-				allow[k] = append(allow[k], allowed{lv.P.Base, lv.P.Idx})
+				allow[k] = append(allow[k], frameAllowed{lv.P.Base, lv.P.Idx})
 			}
 		}()
 	}
+	x.fspec = fs
+	return fs
+}
+
+func (fs *frameSpec) allowedTerms(key string) []string {
+	var as []string
+	for _, a := range fs.allow[key] {
+		if strings.HasPrefix(key, "E|") || strings.HasPrefix(key, "MD|") || strings.HasPrefix(key, "MV|") {
+			as = append(as, fmt.Sprintf("(and (= qr %s) (= qi %s))", a.base, a.idx))
+		} else {
+			as = append(as, fmt.Sprintf("(= qr %s)", a.base))
+		}
+	}
+	return as
+}
+
+// loopFrameGoals: for a function with an assigns clause, the frame so far, as an automatic loop invariant.
+func (x *Exec) loopFrameGoals(st *State, keys map[string]bool) []string {
+	if x.fc == nil || !(x.fc.AssignsNone || len(x.fc.Assigns) > 0) {
+		return nil
+	}
+	fs := x.frameSpecOf(st)
+	var goals []string
+	for _, key := range sortedKeys(keys) {
+		if key == "*" || strings.HasPrefix(key, "G|") || key == "L|" || fs.allKeys[key] {
+			continue
+		}
+		srt := x.arrSort[key]
+		if srt == "" {
+			continue
+		}
+		cur := x.heapArr(st, key, srt)
+		old := x.heapArr(x.entry, key, srt)
+		if cur == old {
+			continue
+		}
+		goals = append(goals, x.frameGoal(key, cur, old, false, fs.allowedTerms(key)))
+	}
+	return goals
+}
+
+func (x *Exec) frameObligations(st *State) {
+	fs := x.frameSpecOf(st)
+	ghostOK, allKeys := fs.ghostOK, fs.allKeys
 	var goals []string
 	var gkeys []string
 	for _, key := range sortedKeys(st.written) {
@@ -971,25 +1075,7 @@ func (x *Exec) frameObligations(st *State) {
 		if cur == old {
 			continue
 		}
-		var alts []string
-		for _, f := range st.freshRefs {
-			alts = append(alts, fmt.Sprintf("(= qr %s)", f))
-		}
-		twoLevel := strings.HasPrefix(key, "E|") || strings.HasPrefix(key, "MD|") || strings.HasPrefix(key, "MV|")
-		var goal string
-		if twoLevel {
-			for _, a := range allow[key] {
-				alts = append(alts, fmt.Sprintf("(and (= qr %s) (= qi %s))", a.base, a.idx))
-			}
-			alts = append(alts, fmt.Sprintf("(= (select (select %s qr) qi) (select (select %s qr) qi))", cur, old))
-			goal = fmt.Sprintf("(forall ((qr Int) (qi Int)) %s)", smtOr(alts))
-		} else {
-			for _, a := range allow[key] {
-				alts = append(alts, fmt.Sprintf("(= qr %s)", a.base))
-			}
-			alts = append(alts, fmt.Sprintf("(= (select %s qr) (select %s qr))", cur, old))
-			goal = fmt.Sprintf("(forall ((qr Int)) %s)", smtOr(alts))
-		}
+		goal := x.frameGoal(key, cur, old, false, fs.allowedTerms(key))
 		goals = append(goals, goal)
 		gkeys = append(gkeys, key)
 	}
@@ -1045,6 +1131,9 @@ func splitAnd(t string) []string {
 // (no heap reads or writes, only calls to functions in pure packages or with pure contracts).
 func (e *Engine) impure(fn *ssa.Function) string {
 	for _, p := range fn.Params {
+		if _, isI := p.Type().Underlying().(*types.Interface); isI {
+			continue
+		}
 		if !isLeafType(p.Type()) || sortOf(p.Type()) == "" {
 			return "takes a composite parameter"
 		}
@@ -1056,12 +1145,12 @@ func (e *Engine) impure(fn *ssa.Function) string {
 		for _, ins := range b.Instrs {
 			switch in := ins.(type) {
 			case *ssa.Store:
-				if kind, _, _, ok := staticLoc(in.Addr); !ok || kind != "" {
+				if kind, _, _, ok := staticLoc(in.Addr); (!ok || kind != "") && !allocRooted(in.Addr) {
 					return "writes the heap"
 				}
 			case *ssa.UnOp:
 				if in.Op == token.MUL {
-					if kind, _, _, ok := staticLoc(in.X); !ok || kind != "" {
+					if kind, _, _, ok := staticLoc(in.X); (!ok || kind != "") && !allocRooted(in.X) {
 						return "reads the heap"
 					}
 				}
@@ -1070,6 +1159,9 @@ func (e *Engine) impure(fn *ssa.Function) string {
 				}
 			case *ssa.Call:
 				if in.Call.IsInvoke() {
+					if e.pureIface(in.Call.Method, in.Call.Value.Type()) {
+						continue
+					}
 					return "calls an interface method"
 				}
 				if _, isB := in.Call.Value.(*ssa.Builtin); isB {
@@ -1082,6 +1174,14 @@ func (e *Engine) impure(fn *ssa.Function) string {
 				if fc := e.contractOf(c); fc != nil && fc.Pure {
 					continue
 				}
+				if inModule(c) && c.Blocks != nil && c != fn && !e.impureBusy[c] {
+					e.impureBusy[c] = true
+					why := e.impure(c)
+					delete(e.impureBusy, c)
+					if why == "" {
+						continue
+					}
+				}
 				if !purePkgs[pkgPathOf(c)] || c.Name() == "Now" || c.Name() == "Since" {
 					return "calls " + c.String()
 				}
@@ -1091,4 +1191,109 @@ func (e *Engine) impure(fn *ssa.Function) string {
 		}
 	}
 	return ""
+}
+
+// allocRooted: the address is derived from an allocation made by this very function.
+func allocRooted(v ssa.Value) bool {
+	for {
+		switch a := v.(type) {
+		case *ssa.FieldAddr:
+			v = a.X
+		case *ssa.IndexAddr:
+			v = a.X
+		case *ssa.Alloc:
+			return true
+		default:
+			return false
+		}
+	}
+}
+
+func (e *Engine) sortedContracts() []*FuncContract {
+	var ks []string
+	for k := range e.cs.Funcs {
+		ks = append(ks, k)
+	}
+	sort.Strings(ks)
+	var out []*FuncContract
+	for _, k := range ks {
+		out = append(out, e.cs.Funcs[k])
+	}
+	return out
+}
+
+// pureAxiom: forall args. requires ==> ensures[result := f(args)] for a pure function (no heap reads in its clauses).
+func (x *Exec) pureAxiom(pfc *FuncContract) (ax string) {
+	fn := x.eng.funcOfContract(pfc)
+	if fn == nil || fn.Signature.Results().Len() != 1 {
+		return ""
+	}
+	defer func() {
+		if r := recover(); r != nil {
+			if _, ok := r.(evalError); ok {
+				ax = ""
+				return
+			}
+			panic(r)
+		}
+	}()
+	si := &specInst{name: "pureax", heapSort: map[string]string{}, prefix: "hpx_"}
+	st := newSpecState(si)
+	names := map[string]*Value{}
+	var syms, terms []string
+	for _, p := range fn.Params {
+		k := 0
+		v := mkValue(p.Type(), func(l Leaf) string {
+			nm := fmt.Sprintf("pa_%s_%d", p.Name(), k)
+			k++
+			syms = append(syms, fmt.Sprintf("(%s %s)", nm, l.Sort))
+			return nm
+		})
+		names[p.Name()] = v
+		for i, t := range x.flatten(v) {
+			if leaves(p.Type())[i].Sort == "Bool" {
+				t = fmt.Sprintf("(ite %s 1 0)", t)
+			}
+			terms = append(terms, t)
+		}
+	}
+	rt := fn.Signature.Results().At(0).Type()
+	if len(leaves(rt)) != 1 {
+		return ""
+	}
+	name := fmt.Sprintf("pure_%s_0_0", smtName(pfc.PkgPath+"."+pfc.Key))
+	x.globalDecl(name, fmt.Sprintf("(declare-fun %s (%s) %s)", name, strings.TrimSpace(strings.Repeat("Int ", len(terms))), sortOf(rt)))
+	app := fmt.Sprintf("(%s %s)", name, strings.Join(terms, " "))
+	res := leaf(rt, app)
+	bindResults(names, fn.Signature, []*Value{res})
+	env := &Env{x: x, st: st, old: st, names: names, pkg: fn.Pkg.Pkg, pkgPath: fn.Pkg.Pkg.Path()}
+	var reqs, enss []string
+	for _, r := range pfc.Requires {
+		reqs = append(reqs, x.evalBool(env, r))
+	}
+	for _, en := range pfc.Ensures {
+		enss = append(enss, x.evalBool(env, en))
+	}
+	if len(si.heapKeys) > 0 {
+		return "" // clauses read the heap: not a fact about the function symbol alone
+	}
+	enss = append(enss, st.pc...)
+	body := smtAnd(enss)
+	if len(reqs) > 0 {
+		body = fmt.Sprintf("(=> %s %s)", smtAnd(reqs), body)
+	}
+	return fmt.Sprintf("(forall (%s) (! %s :pattern (%s)))", strings.Join(syms, " "), body, app)
+}
+
+// frameGoal: every object that existed at function entry (alloc0) and is not an allowed location keeps its content.
+func (x *Exec) frameGoal(key, cur, old string, _ bool, allowed []string) string {
+	twoLevel := strings.HasPrefix(key, "E|") || strings.HasPrefix(key, "MD|") || strings.HasPrefix(key, "MV|")
+	alts := []string{"(not (select alloc0 qr))"}
+	alts = append(alts, allowed...)
+	if twoLevel {
+		alts = append(alts, fmt.Sprintf("(= (select (select %s qr) qi) (select (select %s qr) qi))", cur, old))
+		return fmt.Sprintf("(forall ((qr Int) (qi Int)) %s)", smtOr(alts))
+	}
+	alts = append(alts, fmt.Sprintf("(= (select %s qr) (select %s qr))", cur, old))
+	return fmt.Sprintf("(forall ((qr Int)) %s)", smtOr(alts))
 }
